@@ -96,6 +96,9 @@ def rand_rewrite(rng, name, vendors=(311, 9, 27262), grow=False):
         rw.rm = sorted({rng.choice([1, 18, 24, 25, 26, 31, 33, 44, 79, 80, 87, rng.randrange(1, 256)]) for _ in range(rng.randrange(1, 4))})
         if rw.wl:   # keep the essentials most of the time
             rw.rm = sorted(set(rw.rm) | ({1, 2, 4, 26} if rng.random() < 0.8 else set()))
+    if rw.rm and sum(rw.rm) % 3 == 0:
+        # (types from the upper half of the octet: a list of types is a list of octets, not of characters)
+        rw.rm = sorted(set(rw.rm) | {[128, 200, 255][sum(rw.rm) // 3 % 3]})
     if rng.random() < 0.2:   # rules that name the attributes the proxy itself must add (Message-Authenticator, Proxy-State, TTL)
         rw.rm = sorted(set(rw.rm or []) | {rng.choice([80, 80, 33, 26])})
     if rng.random() < 0.4:
